@@ -193,8 +193,84 @@ def pack_case(draw, mode):
     return {'kind': 'pack', 'S': S, 'mask': mask, 'probe': probe}
 
 
+@st.composite
+def long_index_case(draw, mode):
+    """A long index array (a pointing: thousands of samples) into few or many pixels, stored in any integer dtype that can
+    hold the pixel numbers; negative entries for the signed ones. Judged without any dense matrix."""
+    n = draw(st.sampled_from([3, 12, 12, 100, 127, 200, 255, 3000]))
+    L = draw(st.sampled_from([300, 1000, 4096, 4097, 5000, 9000]))
+    pool = ['int32', 'int32']
+    if n <= 127:
+        pool += ['int8', 'int8']
+    if n <= 255:
+        pool += ['uint8', 'uint8']
+    pool += ['int16', 'uint16', 'uint32'] + (['int64'] if mode == 'x64' else [])
+    dt = draw(st.sampled_from(pool))
+    return {'kind': 'long_index', 'n': n, 'L': L, 'dt': dt, 'seed': draw(st.integers(0, 10 ** 6)),
+            'negatives': (not dt.startswith('u')) and draw(st.booleans()), 'hot': draw(st.booleans()),
+            'trailing': draw(st.sampled_from([[], [], [2]])), 'dtype': draw(st.sampled_from(['float32', 'float64'])) if mode == 'x64' else 'float32',
+            'unique_arg': draw(st.sampled_from([None, False]))}
+
+
 def strategy(tier, mode):
-    return st.one_of(index_case(mode), index_case(mode), index_case(mode), pack_case(mode))
+    return st.one_of(index_case(mode), index_case(mode), index_case(mode), pack_case(mode), long_index_case(mode))
+
+
+def _check_long(r, mode):
+    import jax
+    import jax.numpy as jnp
+
+    from furax._base.core import IdentityOperator
+    from furax._base.diagonal import DiagonalOperator
+    from furax._base.indices import IndexOperator
+
+    n, L = r['n'], r['L']
+    rng = np.random.default_rng(r['seed'])  # (a pure function of the drawn seed: part of the recipe)
+    idx = rng.integers(0, n, L)
+    if r['hot']:
+        idx[rng.random(L) < 0.6] = int(rng.integers(0, n))  # one pixel hit most of the time
+    if r['negatives']:
+        neg = rng.random(L) < 0.3
+        idx = np.where(neg, idx - n, idx)
+    idx = idx.astype(r['dt'])
+    norm = np.asarray(idx, dtype=np.int64) % n
+    shape = (n,) + tuple(r['trailing'])
+    oshape = (L,) + tuple(r['trailing'])
+    S = jax.ShapeDtypeStruct(shape, jnp.dtype(r['dtype']))
+    kw = {} if r['unique_arg'] is None else {'unique_indices': False}
+    op = must_not_raise('construct', IndexOperator, jnp.asarray(idx), in_structure=S, **kw)
+    outs = op.out_structure()
+    if tuple(outs.shape) != oshape or np.dtype(outs.dtype) != np.dtype(r['dtype']):
+        raise Violation('out_structure', f'declared {outs}; expected {oshape}:{r["dtype"]}')
+    x = rng.integers(-3, 4, shape).astype(np.float64)
+    y = np.asarray(must_not_raise('mv', op.mv, jnp.asarray(x, dtype=r['dtype'])), dtype=np.float64)
+    if y.shape != oshape or not np.array_equal(y, x[norm]):
+        raise Violation('mv-value', f'op(x) != x[indices] for a long index array (L={L}, n={n}, {r["dt"]})')
+    yv = rng.integers(-2, 3, oshape).astype(np.float64)
+    z = np.asarray(must_not_raise('T-mv', op.T.mv, jnp.asarray(yv, dtype=r['dtype'])), dtype=np.float64)
+    acc = np.zeros(shape)
+    np.add.at(acc, norm, yv)
+    if z.shape != shape or not np.array_equal(z, acc):
+        raise Violation('T-mv-value', f'op.T(y) != scatter-add for a long index array (L={L}, n={n}, {r["dt"]})')
+    classes = ['long_index_array', 'index_dtype:' + r['dt']] + (['neg_or_repeated_array'] if r['negatives'] or L > n else [])
+    counts = np.bincount(norm, minlength=n).astype(np.float64)
+    red = must_not_raise('reduce(P.T@P)', (op.T @ op).reduce)
+    got = np.asarray(must_not_raise('PtP-mv', red.mv, jnp.asarray(x, dtype=r['dtype'])), dtype=np.float64)
+    want = counts.reshape((n,) + (1,) * len(r['trailing'])) * x
+    if got.shape != want.shape or not np.array_equal(got, want):
+        j = int(np.argmax(np.abs(got - want).reshape(n, -1).max(axis=1))) if got.shape == want.shape else -1
+        raise Violation('PtP-reduced-value', f'(P.T @ P).reduce() is not the diagonal of hit counts (L={L}, n={n}, {r["dt"]}): pixel {j} '
+                                             f'hit {int(counts[j])} times')
+    if not isinstance(red, DiagonalOperator):
+        raise Violation('PtP-not-simplified', f'P.T @ P with one indexed axis did not simplify to a diagonal: {type(red).__name__}')
+    classes.append('PtP->diag')
+    red2 = must_not_raise('reduce(P@P.T)', (op @ op.T).reduce)
+    if isinstance(red2, IdentityOperator) and len(set(norm.tolist())) < L:
+        raise Violation('PPt-identity-unsound', 'P @ P.T reduced to the identity although an element is selected twice')
+    g2 = np.asarray(must_not_raise('PPt-mv', red2.mv, jnp.asarray(yv, dtype=r['dtype'])), dtype=np.float64)
+    if not np.array_equal(g2, acc[norm]):
+        raise Violation('PPt-reduced-value', f'(P @ P.T).reduce() differs from gather-after-scatter (L={L}, n={n}, {r["dt"]})')
+    return {'nontrivial': True, 'classes': classes}
 
 
 # ---------------------------------------------------------------------------------------------
@@ -232,6 +308,8 @@ def _has_neg_or_repeat(idx, shape_by_pos):
 
 
 def check(recipe, mode):
+    if recipe['kind'] == 'long_index':
+        return _check_long(recipe, mode)
     import jax
 
     from furax._base.core import IdentityOperator
